@@ -48,7 +48,7 @@ def _by_length(body, cl, cuts, lf_only, keep_alive_hdr):
     eol = b'\n' if lf_only else b'\r\n'
     head = b'HTTP/1.1 200 OK' + eol + b'Content-Length: ' + str(cl).encode() + eol
     if keep_alive_hdr:
-        head = head + b'Connection: keep-alive' + eol
+        head = head + b'Connection: keep-alive' + eol + b'X-Fold: a' + eol + b' \t' + eol     # white-space-only continuation line
     head = head + eol
     rec = []
     kind, status, got, conn = _read(head + body, cuts, record=rec)
